@@ -14,7 +14,8 @@ from vf.view import first_difference, view
 RULE = ('Hypothesis: parser-level models (namespaces nested to depth 6, re-opened and multi-id '
         'namespaces, all declaration kinds in any order, unknown classes / non-dict siblings, noise '
         'keys) serialised by an independent serializer; oracle: view(DznJsonAst(json).process()) == '
-        'reference contents derived from the model. Non-trivial: namespace depth >= 2 and >= 5 '
+        'reference contents derived from the model; every third document goes through one long-lived parser '
+        'instance (load_file + process). Non-trivial: namespace depth >= 2 and >= 5 '
         'declarations and one of {re-opened ns, multi-id ns, unknown sibling, nested type}; '
         'distinct by hash of (model, noise).')
 ASSUMPTIONS = ['JSON shape of `dzn parse` as documented by test/unit_tests/testdata_json_ast.py',
@@ -28,14 +29,63 @@ def parse(doc_bytes):
         return DznJsonAst(doc_bytes).process()
 
 
+_LIVE = {'parser': None, 'prev': None, 'n': 0, 'dir': None}
+
+
+def parse_via_live_instance(data, case):
+    """Every third document goes through ONE long-lived parser instance (load_file + process), as a
+    tool that converts many files would do it; by C16 the result is that of a fresh parser.  The
+    document parsed before is remembered, so that a failure can be replayed with its history."""
+    import os
+    import tempfile
+    from dznpy.json_ast import DznJsonAst
+    if _LIVE['dir'] is None:
+        _LIVE['dir'] = tempfile.mkdtemp(prefix='vf_c05_')
+    if _LIVE['parser'] is None:
+        _LIVE['parser'] = DznJsonAst()
+    path = os.path.join(_LIVE['dir'], 'doc.json')
+    with open(path, 'wb') as fh:
+        fh.write(data)
+    case['_prev'] = _LIVE['prev']
+    _LIVE['prev'] = {'model': case['model'], 'noise': case.get('noise')}
+    with contextlib.redirect_stdout(io.StringIO()):
+        return _LIVE['parser'].load_file(path).process()
+
+
 def check_parse(case):
     doc = to_json(case['model'], gen_doc.noise_fn(case.get('noise') or {}))
-    fc = parse(orjson.dumps(doc))
+    data = orjson.dumps(doc)
+    if case.get('history_prev'):
+        # replay of a failure seen on the long-lived instance: a fresh one, the earlier document first
+        _LIVE['parser'], _LIVE['prev'] = None, None
+        prev = case['history_prev']
+        try:
+            parse_via_live_instance(orjson.dumps(to_json(prev['model'], gen_doc.noise_fn(
+                prev.get('noise') or {}))), dict(prev))
+        except Exception:  # pylint: disable=broad-except
+            pass
+        fc = parse_via_live_instance(data, case)
+    else:
+        _LIVE['n'] += 1
+        if _LIVE['n'] % 3 == 0:
+            try:
+                fc = parse_via_live_instance(data, case)
+            except Exception:
+                _LIVE['parser'] = None  # whatever it was, the next document gets a fresh instance
+                raise
+        else:
+            fc = parse(data)
+    prev = case.pop('_prev', None)
     got = view(fc)
     want = expected_file_contents(case['model'])
     diff = first_difference(want, got)
     if diff:
-        raise Fail(f'parsed contents differ from the declared ones (want vs got): {diff}',
+        if prev is not None and not case.get('history_prev'):
+            case['history_prev'] = prev
+            _LIVE['parser'] = None
+        raise Fail(f'parsed contents differ from the declared ones (want vs got): {diff}'
+                   + (' [long-lived parser instance, another document loaded before]'
+                      if case.get('history_prev') else ''),
                    sig='contents:' + diff.split(':')[0].split('[')[0])
 
 
